@@ -153,9 +153,11 @@ def ift2(G, delta_f, FFT=None):
 
     N = G.shape[0]
 
+    # centre sample to index 0 before the transform (ifftshift), back to the
+    # centre afterwards (fftshift); the two shifts only coincide for even N
     if FFT:
-        g = numpy.fft.fftshift(FFT(numpy.fft.fftshift(G))) * (N * delta_f) ** 2
+        g = numpy.fft.fftshift(FFT(numpy.fft.ifftshift(G))) * (N * delta_f) ** 2
     else:
-        g = fft.ifftshift(fft.ifft2(fft.fftshift(G))) * (N * delta_f) ** 2
+        g = fft.fftshift(fft.ifft2(fft.ifftshift(G))) * (N * delta_f) ** 2
 
     return g
